@@ -3,6 +3,7 @@ package main
 // Evaluation of contract expressions against a symbolic state.
 
 import (
+	"sort"
 	"fmt"
 	"go/constant"
 	"go/types"
@@ -25,13 +26,99 @@ type Env struct {
 	pkg       string
 	reach     Term
 	callSite  bool // evaluating a callee's postcondition at a call site
+	siteSubst map[string]string // Name#any -> Name#k while a clause about every call site is being instantiated
 }
 
 func (e *Engine) newEnv(fr *Frame, st *State) *Env {
 	return &Env{e: e, fr: fr, st: st, pkg: pkgOfID(e.FuncID), reach: True}
 }
 
+// anySites: the call-site names used with the ordinal "any" in x (label form Name#any).
+func anySites(x Expr, out map[string]bool) {
+	switch n := x.(type) {
+	case EIdent:
+		if strings.HasSuffix(n.Name, "#any") {
+			out[strings.TrimSuffix(n.Name, "#any")] = true
+		}
+	case ESel:
+		if strings.HasSuffix(n.Name, "#any") {
+			out[strings.TrimSuffix(n.exprString(), "#any")] = true
+		}
+		anySites(n.X, out)
+	case ECall:
+		for _, a := range n.Args {
+			anySites(a, out)
+		}
+	case EBinary:
+		anySites(n.X, out)
+		anySites(n.Y, out)
+	case EUnary:
+		anySites(n.X, out)
+	case EIndex:
+		anySites(n.X, out)
+		anySites(n.I, out)
+	case EQuant:
+		anySites(n.Body, out)
+	}
+}
+
+// siteOrdinals: the ordinals of the call sites of `name` in the function under verification.
+func (e *Engine) siteOrdinals(name string) []int {
+	var out []int
+	for c, k := range e.P.callOrdinals[e.Fn] {
+		id, _ := e.P.calleeID(c)
+		if labelName(id) == name {
+			out = append(out, k)
+		}
+	}
+	sort.Ints(out)
+	return out
+}
+
+// evalBool evaluates a boolean clause. A clause that uses the label form Name#any is a clause about every
+// call site of Name in the function: it is instantiated once per site and the instances are conjoined.
 func (env *Env) evalBool(x Expr) (Term, error) {
+	if env.siteSubst == nil {
+		names := map[string]bool{}
+		anySites(x, names)
+		if len(names) > 0 {
+			var keys []string
+			for n := range names {
+				keys = append(keys, n)
+			}
+			sort.Strings(keys)
+			combos := []map[string]string{{}}
+			for _, n := range keys {
+				ords := env.e.siteOrdinals(n)
+				if len(ords) == 0 {
+					ords = []int{1}
+				}
+				var next []map[string]string
+				for _, c := range combos {
+					for _, k := range ords {
+						m := map[string]string{}
+						for a, b := range c {
+							m[a] = b
+						}
+						m[n+"#any"] = fmt.Sprintf("%s#%d", n, k)
+						next = append(next, m)
+					}
+				}
+				combos = next
+			}
+			out := True
+			for _, c := range combos {
+				e2 := *env
+				e2.siteSubst = c
+				t, err := e2.evalBool(x)
+				if err != nil {
+					return Term{}, err
+				}
+				out = And(out, t)
+			}
+			return out, nil
+		}
+	}
 	v, err := env.eval(x)
 	if err != nil {
 		return Term{}, err
@@ -602,6 +689,13 @@ func (env *Env) callExpr(n ECall) (Val, error) {
 		lbl, ok := labelOf(n.Args[0])
 		if !ok {
 			return Val{}, fmt.Errorf("bad call label")
+		}
+		if strings.HasSuffix(lbl, "#any") {
+			if r, ok := env.siteSubst[lbl]; ok {
+				lbl = r
+			} else {
+				return Val{}, fmt.Errorf("label %s outside a boolean clause", lbl)
+			}
 		}
 		cl := env.e.labels[lbl]
 		if fname == "called" {
